@@ -24,9 +24,10 @@ Theorem C03_refines_reader_view : forall c h, adm c s_empty h = true ->
 Proof. exact refines_reader_view. Qed.
 Print Assumptions C03_refines_reader_view.
 
-(* In every reachable state (any calls whatsoever, link names non-empty and NUL-free) the names the
-   reader decodes in a group are all readable and pairwise distinct. *)
-Theorem C03_no_dup : forall c h g names, names_ok h = true -> group_names (reach c h) g = Some names ->
+(* In every reachable state (any calls whatsoever; names_ok: link names non-empty and NUL-free, or
+   linkToParent checks that itself - strict_names) the names the reader decodes in a group are all
+   readable and pairwise distinct. *)
+Theorem C03_no_dup : forall c h g names, names_ok c h = true -> group_names (reach c h) g = Some names ->
   NoDup names /\ Forall (fun x => x <> None) names.
 Proof. exact no_dup_reach. Qed.
 Print Assumptions C03_no_dup.
@@ -43,30 +44,30 @@ Proof. exact step_err_same_all. Qed.
 Print Assumptions C03_err_unchanged_all.
 
 (* Creating a name that already exists in the group it would be linked into is rejected. *)
-Theorem C03_reject_dup : forall c h o, names_ok h = true -> name_exists (reach c h) o ->
+Theorem C03_reject_dup : forall c h o, names_ok c h = true -> name_exists c (reach c h) o ->
   is_ok (snd (step_body c (reach c h) o)) = false /\
   same_ns (clock (reach c h)) (reach c h) (fst (step_body c (reach c h) o)).
 Proof. exact reject_dup_reach. Qed.
 Print Assumptions C03_reject_dup.
 
 (* Creating under a parent that is not the root and not a registered group is rejected (any state). *)
-Theorem C03_reject_missing_parent : forall c w o, parent_group w (op_parent o) = None ->
+Theorem C03_reject_missing_parent : forall c w o, parent_group w (op_parent c o) = None ->
   is_ok (snd (step_body c w o)) = false /\ same_ns (clock w) w (fst (step_body c w o)).
 Proof. exact reject_missing_parent_any. Qed.
 Print Assumptions C03_reject_missing_parent.
 
 (* At node capacity, or when the name does not fit the heap, the call is rejected and nothing changes
    (the heap and the node are edited in memory only; neither is written). *)
-Theorem C03_capacity : forall c h o g names, names_ok h = true -> heap_name_ok (op_link_name o) = true ->
-  parent_group (reach c h) (op_parent o) = Some g -> group_names (reach c h) g = Some names ->
-  (snod_cap c <= blen names \/ new_heap_size (heap_cap c) < used_bytes names + blen (op_link_name o) + 1) ->
+Theorem C03_capacity : forall c h o g names, names_ok c h = true -> heap_name_ok (op_link_name c o) = true ->
+  parent_group (reach c h) (op_parent c o) = Some g -> group_names (reach c h) g = Some names ->
+  (snod_cap c <= blen names \/ new_heap_size (heap_cap c) < used_bytes names + blen (op_link_name c o) + 1) ->
   is_ok (snd (step_body c (reach c h) o)) = false /\
   same_ns (clock (reach c h)) (reach c h) (fst (step_body c (reach c h) o)).
 Proof. exact capacity_reach. Qed.
 Print Assumptions C03_capacity.
 
 (* After a successful CreateHardLink both names resolve to the same object header. *)
-Theorem C03_hardlink_same_object : forall c h p q w', names_ok h = true -> heap_name_ok (snd (parse_path p)) = true ->
+Theorem C03_hardlink_same_object : forall c h p q w', names_ok c h = true -> heap_name_ok (snd (parse_path p)) = true ->
   step c (reach c h) (HardLink p q) = (w', Ok) ->
   exists t, resolve_object_address w' p = Some t /\ resolve_object_address w' q = Some t.
 Proof. exact hardlink_same_object_reach. Qed.
@@ -75,7 +76,7 @@ Print Assumptions C03_hardlink_same_object.
 (* ---- the exclusions are necessary: one witness each (Proofs/GroupNSWitness.v) ---- *)
 (* target_is_data: a hard link to a group; both sides accept every call, the reader lists /h without children *)
 Theorem C03_group_hardlink_refuted :
-  names_ok h_group_hardlink = true /\ all_ok (snd (go h_group_hardlink)) = true /\ all_ok (snd (sp h_group_hardlink)) = true /\
+  names_ok go_cfg h_group_hardlink = true /\ all_ok (snd (go h_group_hardlink)) = true /\ all_ok (snd (sp h_group_hardlink)) = true /\
   read_tree (fst (go h_group_hardlink)) <> spec_tree (fst (sp h_group_hardlink)) /\
   read_tree (fst (go h_group_hardlink)) =
     Some (TNode 0 KGroup [(b "g", TNode 1 KGroup [(b "x", TNode 2 KGroup [])]); (b "h", TNode 1 KGroup [])]).
@@ -119,3 +120,17 @@ Theorem C03_hardlink_rollback_refuted :
   ~ same_all (clock w) w w'.
 Proof. exact hardlink_rollback_refuted. Qed.
 Print Assumptions C03_hardlink_rollback_refuted.
+
+(* ---- with the candidate repairs (notes/fixes) the name exclusion disappears ---- *)
+Theorem C03_no_dup_repaired : forall c h g names, strict_names c = true -> group_names (reach c h) g = Some names ->
+  NoDup names /\ Forall (fun x => x <> None) names.
+Proof. exact no_dup_repaired. Qed.
+Print Assumptions C03_no_dup_repaired.
+Theorem C03_repairs_remove_witnesses :
+  snd (gof h_empty_name) = [Err EInvalidPath; Ok] /\ snd (gof h_dataset_root) = [Err EInvalidPath; Ok] /\
+  snd (gof h_nul_name) = [Ok; Err EInvalidPath] /\
+  snd (gof h_trailing_slash) = [Ok; Ok; Err ENoParent] /\
+  (let w := fst (gof h_rollback) in
+   option_map refcount (alookup 1 (objects (fst (step_body fixed_cfg w o_rollback)))) = Some 1).
+Proof. exact repairs_remove_witnesses. Qed.
+Print Assumptions C03_repairs_remove_witnesses.
